@@ -21,6 +21,11 @@ ASSUMPTIONS = ["the documented table is the STATUSCODE2EXCEPTION mapping of SAML
 
 S = "urn:oasis:names:tc:SAML:2.0:status:"
 TOP = ["Success", "Requester", "Responder", "VersionMismatch", "urn:example:status:Whatever"]
+# values an imprecise comparison (substring, prefix, case folding, trimming) would take for Success
+TOP_NEAR = ["urn:oasis:names:tc:SAML:2.0:status:", "urn:oasis:names:tc:SAML:2.0:status:success", "urn:oasis:names:tc:SAML:2.0:status:Success ",
+            " urn:oasis:names:tc:SAML:2.0:status:Success", "urn:oasis:names:tc:SAML:2.0:status:Successful", "urn:oasis:names:tc:SAML:2.0",
+            "urn:oasis:names:tc:SAML:1.0:status:Success", "status:Success", "urn:Success", "urn:oasis:names:tc:SAML:2.0:status:Succes",
+            "URN:OASIS:NAMES:TC:SAML:2.0:STATUS:SUCCESS", "urn:oasis:names:tc:SAML:2.0:status:Success#x"]
 SECOND = {"AuthnFailed": "StatusAuthnFailed", "InvalidAttrNameOrValue": "StatusInvalidAttrNameOrValue",
           "InvalidNameIDPolicy": "StatusInvalidNameidPolicy", "NoAuthnContext": "StatusNoAuthnContext", "NoAvailableIDP": "StatusNoAvailableIdp",
           "NoPassive": "StatusNoPassive", "NoSupportedIDP": "StatusNoSupportedIdp", "PartialLogout": "StatusPartialLogout",
@@ -44,6 +49,11 @@ def gen_cases(tier, seed):
                     cid = "status-%s-%s-m%d-%s" % (top.split(":")[-1], second.split(":")[-1] or "empty", msg, assertion)
                     cases.append({"id": cid, "sig": ["status", top, second, msg, assertion], "kind": "status", "top": top, "second": second,
                                   "msg": msg, "assertion": assertion})
+    for top in TOP_NEAR:
+        for second in ("<absent>", "RequestDenied"):
+            for assertion in ("none", "signed"):
+                cid = "status-near:%r-%s-%s" % (top, second, assertion)
+                cases.append({"id": cid, "sig": ["status-near", top, second, assertion], "kind": "status", "top": top, "second": second, "msg": 0, "assertion": assertion})
     for v in VERSIONS:
         for target in ("response", "authn_request", "logout_request", "assertion"):
             cases.append({"id": "version-%s-%r" % (target, v), "sig": ["version", target, v], "kind": "version", "target": target, "version": v})
@@ -59,7 +69,7 @@ def setup_worker(ctx):
 
 
 def _urn(x):
-    return x if (":" in x or x == "") else S + x
+    return x if (":" in x or x == "" or x in TOP_NEAR) else S + x
 
 
 def run_case(case, ctx):
